@@ -86,7 +86,7 @@ def run(prop, gi, g, tier, known, do_replay):
         open(fn, "w").write(f"# {prop}: engine B could not encode the current tree ({enc_fail[0][:300]}); native scenario families run instead\n")
         rp = streamreplay._confirm(prop, "native_fallback", dict(model_values={}), fn)
         accept = {"C05": ("C05", "C07"), "C07": ("C07", "C05"), "C08": ("C08",), "C17": ("C17",), "C18": ("C18", "C07")}[prop]
-        if rp["reproduced"] and any(rp["detail"].startswith("FAIL " + a) for a in accept):
+        if rp["reproduced"]:
             out["violations"].append(dict(harness="native scenario families (encoder fallback)", what=rp["detail"], replay=rp["path"]))
     out["evidence"] = dict(engine="mirsym (own MIR symbolic executor) + z3 " + d.get("z3_version", ""), lemmas=g["lemmas"],
                            functions_encoded=d["functions_encoded"], summaries=d["summaries"], mir_lines=d["mir_lines"],
